@@ -22,6 +22,7 @@ inductive Err
   | badDelegation  -- ErrNSECBadDelegation
   | nsMissing      -- ErrNSECNSMissing
   | optOut         -- ErrNSECOptOut
+  | noDenial       -- ErrWildcardNoDenial
 deriving Repr, DecidableEq
 
 def Err.str : Err → String
@@ -30,6 +31,7 @@ def Err.str : Err → String
   | .badDelegation => "baddeleg"
   | .nsMissing => "nsmissing"
   | .optOut => "optout"
+  | .noDenial => "nodenial"
 
 instance {ε α : Type} [DecidableEq ε] [DecidableEq α] : DecidableEq (Except ε α)
   | .ok a, .ok b => if h : a = b then isTrue (by rw [h]) else isFalse (by intro e; cases e; exact h rfl)
@@ -136,6 +138,46 @@ def verifyDelegationNSEC (d : Name) (s : List Nsec) : Except Err Unit :=
     if !typesSet r.types [tNS] then .error .nsMissing
     else if typesSet r.types [tDS, tSOA] then .error .badDelegation
     else .ok ()
+
+/-- `dnsutil.DnameTarget`: the FIRST DNAME of the answer section decides; it
+rewrites the question name only when its owner is a proper ancestor, label
+by label, and then substitutes the target for the owner. -/
+def dnameTarget (q : Name) (dnames : List (Name × Name)) : Option Name :=
+  match dnames with
+  | [] => none
+  | (owner, target) :: _ =>
+    if owner.length = 0 || q.length ≤ owner.length then none
+    else if !owner.isPrefixOf q then none
+    else some (target ++ q.drop owner.length)
+
+/-- the name the exact validators deny: the question name, or its DNAME rewriting. -/
+def proofName (q : Name) (dnames : List (Name × Name)) : Name := (dnameTarget q dnames).getD q
+
+/-! ### wildcard-expanded answers (wildcard.go) -/
+
+/-- one RRSIG of the answer section: owner name and its Labels field. -/
+structure AnsSig where
+  owner : Name
+  labels : Nat
+deriving Repr, DecidableEq
+
+/-- the next closer name of a wildcard-expanded RRSIG: one label longer than
+the closest encloser (the last `labels` labels of the owner). -/
+def AnsSig.nextCloser (g : AnsSig) : Name := g.owner.take (g.labels + 1)
+
+/-- `dnssec.VerifyWildcardAnswerForZoneWithWork` over NSEC records (the
+authority section after `FilterRRsToZone`): EVERY RRSIG whose Labels field is
+smaller than its owner's label count needs an NSEC covering ITS next closer
+name — a span whose next name lies below the next closer (`nsecProvesENT`:
+the name is an empty non-terminal and exists) does not count; a missing
+denial is `ErrWildcardNoDenial`.  NSEC covers are always secure. -/
+def verifyWildcardNSEC : List AnsSig → List Nsec → Except Err Bool
+  | [], _ => .ok true
+  | g :: rest, s =>
+    if g.labels ≥ g.owner.length then verifyWildcardNSEC rest s
+    else if s.any fun r => nsecCovers r.owner r.next g.nextCloser && !nsecProvesENT r g.nextCloser then
+      verifyWildcardNSEC rest s
+    else .error .noDenial
 
 /-! ### the RFC 8198 classifier (aggressive_negative.go) -/
 
